@@ -321,6 +321,13 @@ add("C01", "X-placeholder-signal-name", "fixed",
            [{"a": 0, "b": 3}, {"a": 2, "b": -5}]), commit="7ccc29a")
 
 
+add("C01", "X-inline-steals-exported-comparison", "fixed",
+    "Signal v2 = v1 >= 0; lr0.enable = v2; Signal v4 = v2; - v4 (an unconsumed alias of the comparison) read nothing after the comparison was inlined into the lamp",
+    case01([Decl("Signal", "in1", Num(0)), Decl("Signal", "v1", Ref("in1")), Decl("Signal", "v2", Bin(">=", Ref("v1"), Num(0))),
+            Decl("Entity", "lr0", Place("small-lamp", Num(0), Num(0))), Assign("lr0", "enable", Ref("v2")), Decl("Signal", "v4", Ref("v2"))],
+           [{"in1": 0}, {"in1": -3}]), commit="a3ea559")
+
+
 def main():
     import importlib
 
@@ -342,6 +349,8 @@ def main():
         ent = {"id": f["id"], "property": f["property"], "status": f["status"], "what": f["what"], "witness": wpath}
         if f["commit"]:
             ent["commit"] = f["commit"]
+        if f["status"] == "fixed":
+            ent["record"] = f"fixed: property={f['property']} {f['commit']} {f['what']}"
         if f["trigger"]:
             ent["trigger"] = f["trigger"]
         if f["also"] or len(sigs) > 1:
